@@ -25,11 +25,13 @@ def loop_ordinals(fnode):
     collections are not numbered: they must be concrete)"""
     out = {}
     n = [0]
+    stmt_comps = {id(x.value) for x in ast.walk(fnode) if isinstance(x, ast.Expr) and isinstance(x.value, ast.ListComp)}
 
     def visit(node):
         for child in ast.iter_child_nodes(node):
             if isinstance(child, (ast.For, ast.While, ast.AsyncFor)) or \
-                    (isinstance(child, ast.ListComp) and any(isinstance(x, ast.Await) for x in ast.walk(child))):
+                    (isinstance(child, ast.ListComp) and (id(child) in stmt_comps
+                                                           or any(isinstance(x, ast.Await) for x in ast.walk(child)))):
                 out[id(child)] = n[0]
                 n[0] += 1
             visit(child)
@@ -103,7 +105,16 @@ def loop_handler(ip, s, fr: Frame, it):
             idx_name = f"__i{k}"
         fr.vars[idx_name] = VInt(0)
     visited_name = None
+    map_it = it.base if isinstance(it, VIter) and isinstance(it.base, VMap) else (it if isinstance(it, VMap) else None)
+    if isinstance(s, ast.For) and map_it is not None:
+        visited_name = inv.ghost.get("visited", f"__visited{k}")
+        vref = st.new_ref()
+        st.heap[(vref, "set")] = z3.K(sort_of_type(map_it.key), z3.BoolVal(False))
+        fr.vars[visited_name] = VSet(vref, map_it.key)
+        set_at_entry = st.heap[(map_it.ref, "dom")]
+        elem_sort_t = map_it.key
     if isinstance(s, ast.For) and isinstance(it, VSet):
+        elem_sort_t = it.elem
         visited_name = inv.ghost.get("visited", f"__visited{k}")
         vref = st.new_ref()
         st.heap[(vref, "set")] = z3.K(sort_of_type(it.elem), z3.BoolVal(False))
@@ -127,10 +138,10 @@ def loop_handler(ip, s, fr: Frame, it):
             else:
                 fr.assign(name, mk_sym(st, ip.tenv, t, st.fresh_name(name)))
     if visited_name is not None:
-        vis = st.fresh(visited_name, z3.ArraySort(sort_of_type(it.elem), z3.BoolSort()))
+        vis = st.fresh(visited_name, z3.ArraySort(sort_of_type(elem_sort_t), z3.BoolSort()))
         st.heap[(fr.vars[visited_name].ref, "set")] = vis
         # visited elements are elements of the set being iterated
-        y = z3.Const(st.fresh_name("y"), sort_of_type(it.elem))
+        y = z3.Const(st.fresh_name("y"), sort_of_type(elem_sort_t))
         st.assume(z3.ForAll([y], z3.Implies(z3.Select(vis, y), z3.Select(set_at_entry, y))))
     if idx_name is not None and seq_term is not None:
         i_t = st.fresh(idx_name, z3.IntSort())
@@ -167,8 +178,8 @@ def loop_handler(ip, s, fr: Frame, it):
         item = next_item(ip, it, seq_term, fr, idx_name, inv, k)
         if visited_name is not None:
             vr = fr.vars[visited_name].ref
-            st.assume(z3.Not(z3.Select(st.heap[(vr, "set")], term_of(item))))
-            loop_item = item
+            loop_item = item.items[0] if isinstance(item, VTuple) else item     # map items(): the key
+            st.assume(z3.Not(z3.Select(st.heap[(vr, "set")], term_of(loop_item))))
         ip.assign_target(s.target, item, fr)
     try:
         ip.exec_block(s.body, fr)
@@ -539,6 +550,18 @@ def map_min_key(ip, m: VMap):
     return wrap(m.key, k)
 
 
+def map_max_key(ip, m: VMap):
+    st = ip.st
+    dom = st.heap[(m.ref, "dom")]
+    if st.branch(dom == z3.K(sort_of_type(m.key), z3.BoolVal(False))):
+        raise_("ValueError", "max() arg is an empty sequence")
+    k = st.fresh("maxkey", sort_of_type(m.key))
+    j = z3.Const(st.fresh_name("j"), sort_of_type(m.key))
+    st.assume(z3.Select(dom, k))
+    st.assume(z3.ForAll([j], z3.Implies(z3.Select(dom, j), k >= j)))
+    return wrap(m.key, k)
+
+
 class VHMap(V):
     """dict whose values are mutable heap objects (e.g. broker.queues: name -> DummyQueue).  Within one
     function execution lookups are supported for one symbolic key (and keys provably equal to it)."""
@@ -611,3 +634,4 @@ def install(lib):  # noqa: F811
     lib["__getitem__"]["hmap"] = hmap_getitem
     lib["__setitem__"]["hmap"] = hmap_setitem
     lib["__minkey__"] = map_min_key
+    lib["__maxkey__"] = map_max_key
